@@ -32,6 +32,9 @@ pub use traits::ToLeanString;
 
 mod features;
 
+#[cfg(lean_string_verif)]
+pub mod verif_hooks;
+
 /// Compact, clone-on-write, UTF-8 encoded, growable string type.
 #[repr(transparent)]
 pub struct LeanString(Repr);
@@ -918,6 +921,14 @@ impl Clone for LeanString {
 impl Drop for LeanString {
     fn drop(&mut self) {
         self.0.replace_inner(Repr::new());
+    }
+}
+
+#[cfg(all(lean_string_verif, not(loom)))]
+impl LeanString {
+    #[doc(hidden)]
+    pub fn __verif_refcount(&self) -> Option<usize> {
+        self.0.verif_refcount()
     }
 }
 
